@@ -183,6 +183,10 @@ func stackCampaign(o *hlib.Opts, r *hlib.Result) {
 		hits := 0
 		replay := func() any { return map[string]any{"stack": true, "config": c.line(), "universe": useed, "queries": ops} }
 		names := namePool[rng.IntN(4):][:3]
+		if rng.IntN(4) == 0 {
+			// Round 5: validating upstreams behind the whole stack.
+			names = []string{"cdval.example.com.", "adreq.example.com.", "ecs-cdval.example.com."}
+		}
 		var recent []reqSpec
 		for k, nq := 0, 6+rng.IntN(14); k < nq; k++ {
 			var q reqSpec
@@ -246,8 +250,27 @@ func stackCampaign(o *hlib.Opts, r *hlib.Result) {
 			}
 			hits++
 			r.Count(fmt.Sprintf("stack.%c.hit", c.kind))
+			if ln := strings.ToLower(q.name); isCDValName(ln) || isADReqName(ln) {
+				// Does the whole stack show the known CD / AD classes too (nothing
+				// above the cache strips or fixes the bits)?  Counted, since
+				// violations are recorded once per signature.
+				for _, f := range seen[key] {
+					if (f.cd != q.cd || f.ad != q.ad) && sameModTTL(got, fresh) != "" {
+						r.Count(fmt.Sprintf("stack.%c.hit_differs_after_filler_with_other_cd_or_ad", c.kind))
+
+						break
+					}
+				}
+			}
 			checkHit(r, c, q, got, fresh, 0, len(seen[key]) > 0, replay, seen[key], func(f reqSpec) *dns.Msg {
-				fm, _ := stackExchange(newStack(c, &universe{seed: useed, ecs: c.kind == 'e'}), f)
+				if c.kind == 's' {
+					// A process can build one stack with the simple cache only;
+					// the reference stack without a cache answers afresh.
+					fm, _ := stackExchange(simpleRef, f)
+
+					return fm
+				}
+				fm, _ := stackExchange(newStack(c, &universe{seed: useed, ecs: true}), f)
 
 				return fm
 			})
